@@ -1141,6 +1141,59 @@ def c12_log_regex(prog: Program, run: Run) -> None:
             else:
                 run.ok(R, f"IsoTpStateMachine.{name}", f"group({g}) is a non-empty hex field",
                        f"{f.module.rel}:{st.lineno}")
+    # bytes.fromhex() wants an even number of digits (and nothing else); the patterns admit any
+    # number of hex characters, so a line cut off in the middle of a byte raises ValueError
+    for x in walk_no_nested(f.node):
+        if isinstance(x, ast.Call) and isinstance(x.func, ast.Attribute) and \
+                x.func.attr == "fromhex":
+            caught = any(isinstance(t, ast.Try) and any(z is x for b_ in t.body
+                                                       for z in ast.walk(b_)) and any(
+                h.type is None or ast.unparse(h.type) in ("ValueError", "Exception")
+                for h in t.handlers) for t in walk_no_nested(f.node))
+            if caught:
+                run.ok(R, "IsoTpStateMachine.read_telegrams", "fromhex() is wrapped in except "
+                       "ValueError", f"{f.module.rel}:{x.lineno}")
+            else:
+                run.violation(R, "IsoTpStateMachine.read_telegrams", "fromhex-odd-digits",
+                              f"`{ast.unparse(x)[:60]}` raises ValueError for a data field with "
+                              "an odd number of hex digits (a log line cut off inside a byte), "
+                              "which the frame patterns admit: the log reader dies instead of "
+                              "going on with the next line", f"{f.module.rel}:{x.lineno}",
+                              ast.unparse(x)[:80])
+    # the decimal frame length in brackets (`[8]`, CAN-FD: `[12]` .. `[64]`) admits two digits
+    def bracket_fields(seq):
+        items = list(seq)
+        for i_, (op, av) in enumerate(items):
+            if op is sre.LITERAL and chr(av) == "[":
+                inner = []
+                for op2, av2 in items[i_ + 1:]:
+                    if op2 is sre.LITERAL and chr(av2) == "]":
+                        yield inner
+                        break
+                    inner.append((op2, av2))
+            if op is sre.SUBPATTERN:
+                yield from bracket_fields(av[3])
+            elif op in (sre.MAX_REPEAT, sre.MIN_REPEAT):
+                yield from bracket_fields(av[2])
+            elif op is sre.BRANCH:
+                for b_ in av[1]:
+                    yield from bracket_fields(b_)
+    for name in uses:
+        pat, st = regexes[name]
+        for inner in bracket_fields(sre.parse(pat)):
+            if not inner:
+                continue
+            wide = any(op in (sre.MAX_REPEAT, sre.MIN_REPEAT) and (
+                av[1] is sre.MAXREPEAT or av[1] >= 2) for op, av in inner) or len(inner) >= 2
+            if wide:
+                run.ok(R, f"IsoTpStateMachine.{name}", "the bracketed frame length admits more "
+                       "than one digit", f"{f.module.rel}:{st.lineno}")
+            else:
+                run.violation(R, f"IsoTpStateMachine.{name}", "length-field-one-digit",
+                              "the frame length in brackets matches a single character only: "
+                              "candump lines of CAN-FD frames (`[12]` .. `[64]`) match none of "
+                              "the patterns and their frames are dropped with a warning",
+                              f"{f.module.rel}:{st.lineno}", pat)
     # id from group 2, data from group 3, both fed into decode_rx_frame
     calls = [x for x in walk_no_nested(f.node) if isinstance(x, ast.Call) and call_name(x) ==
              "decode_rx_frame"]
